@@ -1249,3 +1249,76 @@ func TestC11AliasedArguments(t *testing.T) {
 	}
 	run.Exhaustive()
 }
+
+// checkEmptySpread evaluates one `f(...)` formula over the six recording functions.
+func checkEmptySpread(f string) string {
+	type sig struct {
+		variadic bool
+		fixed    int
+	}
+	sigs := map[string]sig{"plain": {false, 0}, "withCtx": {false, 0}, "one": {false, 1}, "tail": {true, 0}, "ctxTail": {true, 0}, "oneTail": {true, 1}}
+	calls := 0
+	data := map[string]interface{}{
+		"plain":   func() (int, error) { calls++; return 7, nil },
+		"withCtx": func(ctx context.Context) (int, error) { calls++; return 7, nil },
+		"one":     func(a int) (int, error) { calls++; return 7, nil },
+		"tail":    func(xs ...int) (int, error) { calls++; return len(xs), nil },
+		"ctxTail": func(ctx context.Context, xs ...string) (int, error) { calls++; return len(xs), nil },
+		"oneTail": func(a int, xs ...int) (int, error) { calls++; return len(xs), nil },
+	}
+	name := ""
+	for n := range sigs {
+		if strings.Contains(f, n+"(...)") && len(n) > len(name) {
+			name = n
+		}
+	}
+	sg := sigs[name]
+	p := obs.Parse([]byte(f))
+	if !p.OK() {
+		return "" // a grammar that rejects `f(...)` outright reports the misuse even earlier
+	}
+	r := formula.NewRunner()
+	r.SetThis(data)
+	out := obs.Eval(r, context.Background(), p.Src.Expression)
+	switch {
+	case out.Panic != nil:
+		return fmt.Sprintf("%s -> %s", f, out)
+	case !sg.variadic || sg.fixed > 0:
+		if out.Err == nil || calls != 0 {
+			return fmt.Sprintf("%s with %s declared without a variadic tail it could fill (%d fixed parameters, variadic=%v) -> %s after %d invocations, want an error and no invocation", f, name, sg.fixed, sg.variadic, out, calls)
+		}
+	case out.Err != nil && calls != 0, out.Err == nil && calls != 1:
+		return fmt.Sprintf("%s -> %s after %d invocations, want an error without invocation or one invocation with an empty tail", f, out, calls)
+	}
+	return ""
+}
+
+func init() {
+	h.RegisterReplay("c11-emptyspread", func(raw json.RawMessage) string {
+		f, err := h.Decode[string](raw)
+		if err != nil {
+			return "bad replay: " + err.Error()
+		}
+		return checkEmptySpread(f)
+	})
+}
+
+// TestC11EmptySpread: `f(...)` - a spread with nothing in front of it.
+func TestC11EmptySpread(t *testing.T) {
+	run := h.Begin("C11", "empty-spread", "enumerated: f(...) for recording functions without parameters, with only a context, with fixed parameters, with fixed parameters and a variadic tail, and purely variadic ones, alone and inside a list; oracle: spread on a non-variadic function is misuse - no invocation and an error; on a variadic function either that, or one invocation with an empty tail when no fixed parameter is missing; every case non-trivial")
+	defer run.End(t)
+	if i, _ := h.Shard(); i != 0 {
+		return
+	}
+	for _, name := range []string{"plain", "withCtx", "one", "tail", "ctxTail", "oneTail"} {
+		for _, form := range []string{"_(...)", "[1, _(...)]", "_(...) ?? 0"} {
+			f := strings.ReplaceAll(form, "_", name)
+			run.Count(true, name)
+			run.Sample(name, f)
+			if msg := checkEmptySpread(f); msg != "" {
+				run.Fail("c11-emptyspread", f, msg)
+			}
+		}
+	}
+	run.Exhaustive()
+}
